@@ -137,7 +137,8 @@ PROPS = {
           "rapid generates 2.0.2+ chains crossing 2-3 snapshot heights: 6-20 holders of 7 different assets (a quarter with exactly equal holdings), stake below or above the 4500x144 PEG cap (PEG priced 500-6000 USD when the conversions "
           "execute), 0-4 movements between snapshots (out, to addresses absent from the previous snapshot, conversions between staked assets), snapshot heights without rates, assets zeroed by the 25% band rule at the snapshot block. "
           "Oracle (reference model): stake_i = sum over non-PEG assets of floor(min(prev,cur)*rate/rate_USD); payout = stake (below the cap) or floor(stake*cap/total) + the dust for exactly one of the top stakers (resolved from "
-          "the observed balances); absent from either snapshot -> nothing. Non-trivial = >= 3 paid addresses and a binding min(); distinct by (start, shape).",
+          "the observed balances); absent from either snapshot -> nothing. Second, model-free (metamorphic): a variant chain in which an otherwise idle address converts some of its own PEG (never staked) into a staked asset strictly after "
+          "snapshot k-1 must show exactly the base chain's staking records at snapshot k (counter late_funds_variants_with_executed_conversion). Non-trivial = >= 3 paid addresses and a binding min(); distinct by (start, shape).",
           quick=(8, 10), thorough=(16, 150)),
  "C15": P("TestC15", "exploration",
           "rapid generates chains with the developer-reward activation 1-2 blocks after the start, 2.0.2 either before or after the first 144-multiple (so developer payouts happen under both the 2000 PEG and the 2000x144 PEG rule), "
